@@ -423,7 +423,11 @@ class TopLevelVisitor(ast.NodeVisitor):
         """
         # lineno points to the last line of a string in CPython < 3.8
         if hasattr(docnode, 'end_lineno'):
-            endpos = docnode.end_lineno - 1
+            # Python >= 3.8: the node records both ends of the literal, so the
+            # start line is known exactly. (Counting the newlines of the VALUE,
+            # as the workaround below does, is wrong for '\n' escapes and for
+            # backslash line continuations inside the literal.)
+            return docnode.lineno, docnode.end_lineno
         else:
             if PLAT_IMPL == 'PyPy':
                 startpos = docnode.lineno - 1
